@@ -21,18 +21,27 @@ IsFlush == l <= Len(Rec) /\ Rec[l].ev \in {"oligo.batch_flush", "cgr.batch_flush
 TReset == /\ Is("reset") /\ RunComplete
           /\ BReset([lens |-> Ev.lens, mem |-> Ev.mem])
           /\ started' = TRUE /\ eofSeen' = FALSE /\ rowsSeen' = 0 - 1 /\ Consume
-TTake == /\ Is("seq.take") /\ started /\ ~eofSeen /\ Read
+\* WHERE the code flushes is not part of any property (only that rows come out complete and in order), so the trace
+\* specification accepts a flush at any point of the reading loop - the threshold rule of Batch!Read / FlushFull is
+\* model-checked on the specification itself (MCBatch) but not imposed on the implementation
+TTake == /\ Is("seq.take") /\ started /\ ~eofSeen /\ rd < N
          /\ A(1) = rd /\ A(2) = bcfg.lens[rd + 1]
+         /\ rd' = rd + 1 /\ buf' = Append(buf, rd) /\ total' = total + bcfg.lens[rd + 1]
+         /\ must' = (total' >= bcfg.mem)
+         /\ UNCHANGED <<bcfg, rows, fin>>
          /\ Consume /\ UNCHANGED <<started, eofSeen, rowsSeen>>
-TTakeNone == /\ Is("seq.take_none") /\ started /\ ~eofSeen /\ ~must /\ rd = N
+TTakeNone == /\ Is("seq.take_none") /\ started /\ ~eofSeen /\ rd = N
              /\ eofSeen' = TRUE /\ Consume /\ UNCHANGED <<bvars, started, rowsSeen>>
-TFlush == /\ IsFlush /\ started
+TFlush == /\ IsFlush /\ started /\ ~fin
           /\ A(1) = Len(buf)
-          /\ \/ ~eofSeen /\ FlushFull
-             \/ eofSeen /\ FinalFlush
+          /\ rows' = rows \o buf /\ buf' = <<>> /\ total' = 0 /\ must' = FALSE
+          /\ fin' = fin /\ UNCHANGED <<bcfg, rd>>
           /\ Consume /\ UNCHANGED <<started, eofSeen, rowsSeen>>
 \* nothing left to flush at the end: no event
-TFinalNone == /\ started /\ eofSeen /\ FinalNone /\ UNCHANGED <<l, started, eofSeen, rowsSeen>>
+\* the loop is over: whatever is still buffered at this point is lost (then DoneInv fails)
+TFinalNone == /\ started /\ eofSeen /\ ~fin /\ Is("file")
+              /\ fin' = TRUE /\ UNCHANGED <<bcfg, rd, buf, total, must, rows>>
+              /\ UNCHANGED <<l, started, eofSeen, rowsSeen>>
 TIgnore == /\ l <= Len(Rec) /\ Rec[l].ev \in {"cov.loop_end", "oligo.idx", "oligocgr.idx", "cov.idx"} /\ Skip
 TFile == /\ Is("file") /\ fin /\ rowsSeen = 0 - 1 /\ Ev.lines = N + Rec[l].hdr /\ Ev.nul = 0
          /\ rowsSeen' = 0 /\ Consume /\ UNCHANGED <<bvars, started, eofSeen>>
